@@ -219,7 +219,7 @@ func init() {
 		Run: func(c *mc.Ctx) {
 			n := 4
 			if c.Tier == "thorough" {
-				n = 6
+				n = 5 // length 6 takes longer than the budget since every history is run observed and blind
 			}
 			sp.explore(c, n)
 		},
